@@ -48,6 +48,11 @@ def oracle_range(ctx, name, prof, n, ctrl, rp, positive=True):
 
 
 def run(ctx):
+    C.source_tie(ctx, 'C12', [
+        dict(file='taurex/data/profiles/temperature/guillot.py', cls='Guillot2010', method='profile', coq='gen_guillot_T4',
+             params=['self.planet.gravity', 'self.kappa_v1', 'self.kappa_ir', 'self.kappa_v2', 'self.pressure_profile',
+                     'self.T_int', 'self.T_irr', 'self.alpha'], results=['T4'], start='planet_grav',
+             opaque={'spe.expn': ('expn', 2)}, nested=('eta',), noop=('self._check_values',))])
     from taurex.temperature import Isothermal, NPoint, Rodgers2000, Guillot2010
     from taurex.data.profiles.temperature.temparray import TemperatureArray
     from taurex.data.profiles.temperature.file import TemperatureFile
